@@ -397,6 +397,94 @@ example :
           (fun l => l.map (·.value)) = [[some 0], [some 250]] := by
   decide +kernel
 
+/-! ## 6b. the configuration in front of the post-processor, and the time stamp of a throttled request -/
+
+/-- **The down-sampling option never reaches the throughput.**  Whatever `reporting/metrics.request.downsample.factor` is
+    set to (absent, 1, 2, … any number) and for every interleaving of worker shipments and post-processing runs: the
+    throughput records of every run, the driver's buffer and the calculator's state are those of the race without the
+    option; the option only selects, run by run, which samples of the batch get request-metric records (every
+    `factor`-th one, counted from the start of the batch). -/
+theorem throughput_independent_of_downsampling (opt : Option Nat) (evs : List DEvent) :
+    (driverRunCfg opt [] [] evs).2.map (·.2) = (driverRun [] [] evs).2 ∧
+    (driverRunCfg opt [] [] evs).1 = (driverRun [] [] evs).1 ∧
+    (driverRunCfg opt [] [] evs).2.map (·.1) = (driverBatches [] evs).map (requestMetricSamples (downsampleFactor opt)) :=
+  driverRunCfg_eq opt evs [] []
+
+example : (driverRunCfg (some 2) [] [] [.update [(0, { abs := 101, rel := 1, period := 1, ops := 10, unit := ['d'], normal := true, tput := none }),
+      (0, { abs := 102, rel := 2, period := 2, ops := 10, unit := ['d'], normal := true, tput := none })], .postProcess]).2.map
+        (fun r => (r.1.length, r.2.map (·.2.value))) = [(1, [some 10, some 10])] := by
+  decide +kernel
+
+/-- with the option set, the samples with request-metric records are a sub-list of the batch (nothing invented), and
+    with the option absent or 1 they are the whole batch -/
+theorem downsampling_selects_from_the_batch (opt : Option Nat) (raw : List (Nat × TSample)) :
+    (requestMetricSamples (downsampleFactor opt) raw).Sublist raw ∧
+    (requestMetricSamples (downsampleFactor none) raw = raw ∧ requestMetricSamples (downsampleFactor (some 1)) raw = raw) :=
+  ⟨everyNthFrom_sublist _ raw 0, everyNthFrom_one raw 0, everyNthFrom_one raw 0⟩
+
+example : requestMetricSamples (downsampleFactor (some 3)) [0, 1, 2, 3, 4, 5, 6] = [0, 3, 6] := by decide
+
+/-- **End to end with the option.**  For every value of the down-sampling option, every interleaving of shipments and
+    post-processing runs and every task `k` whose throughput is calculated: operations counted + carried over + still in
+    the driver's buffer = operations shipped for `k`. -/
+theorem downsampled_race_counts_every_operation_once (opt : Option Nat) (evs : List DEvent) (k : Nat)
+    (hcomp : ∀ s ∈ samplesOf k (shipped evs), s.tput = none)
+    (t : TaskStats) (ht : lookupStats k (driverRunCfg opt [] [] evs).1.2 = some t) :
+    t.total + sumOps t.unprocessed + sumOps (samplesOf k (driverRunCfg opt [] [] evs).1.1) = sumOps (samplesOf k (shipped evs)) := by
+  rw [(driverRunCfg_eq opt evs [] []).2.1] at ht ⊢
+  exact driver_counts_every_operation_once evs k hcomp t ht
+
+example : ((lookupStats 0 (driverRunCfg (some 2) [] [] [.update [(0, { abs := 101, rel := 1, period := 1, ops := 10, unit := ['d'], normal := true, tput := none }),
+      (0, { abs := 102, rel := 2, period := 2, ops := 10, unit := ['d'], normal := true, tput := none })], .postProcess]).1.2).map (·.total)) = some 20 := by
+  decide +kernel
+
+/-- **The time stamp of a sample is the clock at the start of the request.**  `absolute_time` of the sample of a request
+    whose schedule said `expected` and whose client was free at `free`: unthrottled (`expected ≤ 0`) it is the wall clock at
+    `free`; throttled it is the wall clock at the later of `free` and the scheduled point `totalStart + expected` — in
+    particular the wall clock at `free`, NOT the schedule, when the client is behind schedule. -/
+theorem stamp_is_clock_at_request_start (epoch totalStart samplerStart free expected lat svc : Rat) (normal : Bool) :
+    let tm := execTiming (reqClockAt epoch totalStart samplerStart (throttleStart totalStart free expected) lat svc) normal
+    (0 < expected → tm.abs = epoch + max free (totalStart + expected)) ∧
+    (¬ 0 < expected → tm.abs = epoch + free) ∧
+    (totalStart + expected ≤ free → tm.abs = epoch + free) ∧
+    epoch + free ≤ tm.abs := by
+  refine ⟨fun he => ?_, fun he => ?_, fun hb => ?_, ?_⟩
+  · show epoch + throttleStart totalStart free expected = _
+    rw [throttleStart_eq_max _ _ _ he]
+  · show epoch + throttleStart totalStart free expected = _
+    rw [throttleStart_unthrottled _ _ _ he]
+  · show epoch + throttleStart totalStart free expected = _
+    by_cases he : 0 < expected
+    · rw [throttleStart_eq_max _ _ _ he, max_eq_left hb]
+    · rw [throttleStart_unthrottled _ _ _ he]
+  · show epoch + free ≤ epoch + throttleStart totalStart free expected
+    have := throttleStart_ge_free totalStart free expected
+    linarith
+
+example : (execTiming (reqClockAt 1000 50 50 (throttleStart 50 53 (1/2)) 0 (1/4)) true).abs = 1053 ∧
+    (execTiming (reqClockAt 1000 50 50 (throttleStart 50 (50 + 1/4) (1/2)) 0 (1/4)) true).abs = 1050 + 1/2 := by
+  decide +kernel
+
+/-- **Elapsed time cannot run ahead of the work done.**  For every client, every schedule (throttled or not, on or behind
+    schedule) and every list of requests: the time stamp of the client's `i`-th sample, minus the wall clock at which the
+    client started on the task, is at least the time its earlier requests kept it busy.  So the elapsed time the
+    calculator derives from the samples of a task that cannot keep up with its target throughput is the time that really
+    passed, and the reported throughput is the achieved one, not the target. -/
+theorem elapsed_covers_the_work_done (epoch totalStart samplerStart lat svc : Rat) (qs : List SchedReq) (i : Nat)
+    (h : i < (clientRun totalStart totalStart qs).length) :
+    sumBusy (qs.take i) ≤
+      (execTiming (reqClockAt epoch totalStart samplerStart ((clientRun totalStart totalStart qs)[i]'h).1 lat svc) true).abs
+        - (epoch + totalStart) := by
+  show sumBusy (qs.take i) ≤ epoch + ((clientRun totalStart totalStart qs)[i]'h).1 - (epoch + totalStart)
+  have := clientRun_start_ge totalStart qs totalStart i h
+  linarith
+
+/-- a client with a target interval of 1/10 s whose requests take 1/4 s: the third request is stamped 1/2 s after the
+    start (the clock), not 2/10 s (the schedule) -/
+example : (clientRun 50 50 [⟨0, 1/4⟩, ⟨1/10, 1/4⟩, ⟨2/10, 1/4⟩]).map (·.1) = [50, 50 + 1/4, 50 + 1/2] ∧
+    (clientRun 50 50 [⟨0, 1/4⟩, ⟨1, 1/4⟩, ⟨2, 1/4⟩]).map (·.1) = [50, 51, 52] := by
+  decide +kernel
+
 /-! ## 7. historical witness: the code before /repo commit d4fc0e7 (`fix = false`) -/
 
 /-- HISTORICAL (not about the current code).  Before commit d4fc0e7 conservation was false: on `witness` the
